@@ -882,8 +882,59 @@ class C06(Check):
         self._brute = 0
 
     def tables(self):
-        return ["def commonProperties : List String := [%s]"
-                % ", ".join(tables.lean_strlit(p) for p in sembase._COMMON_PROPERTIES)]
+        """Generated table `commonProperties` plus the PINS: names and constants of the anchored functions that the
+        hand-written model mirrors, read from the live code objects (docstrings dropped; nested code objects of
+        generator expressions flattened in order)."""
+        import types
+
+        from delphin.mrs import _mrs as mrsmod
+        from delphin import predicate as predmod
+        lit = tables.lean_strlit
+
+        def show(c):
+            return c if isinstance(c, str) else repr(c)
+
+        def walk(fn, attr):
+            out = []
+
+            def rec(code):
+                for c in getattr(code, attr):
+                    if isinstance(c, types.CodeType):
+                        continue
+                    if attr == "co_consts" and c == fn.__doc__:
+                        continue
+                    out.append(show(c))
+                for c in code.co_consts:
+                    if isinstance(c, types.CodeType):
+                        out.append(c.co_name)
+                        rec(c)
+            rec(fn.__code__)
+            return out
+
+        def defaults(fn):
+            return [repr(x) for x in (fn.__defaults__ or ())] + \
+                   ["%s=%r" % kv for kv in sorted((fn.__kwdefaults__ or {}).items())]
+
+        def lst(name, xs):
+            return "def %s : List String := [%s]" % (name, ", ".join(lit(x) for x in xs))
+        fns = [("IsIsomorphic", _operations.is_isomorphic), ("MakeIsograph", _operations._make_mrs_isograph),
+               ("CompareBags", _operations.compare_bags), ("Vf2", util._vf2), ("InvMap", util._vf2_inv_map),
+               ("Feasible", util._vf2_feasible), ("New", util._vf2_new), ("Consistent", util._vf2_consistent),
+               ("Candidates", util._vf2_candidates), ("Normalize", predmod.normalize),
+               ("StripPredicate", predmod._strip_predicate), ("PropertyPriority", sembase.property_priority),
+               ("FillVariables", mrsmod._fill_variables), ("UniquifyIds", mrsmod._uniquify_ids)]
+        lines = ["def commonProperties : List String := [%s]"
+                 % ", ".join(lit(p) for p in sembase._COMMON_PROPERTIES)]
+        for nm, fn in fns:
+            lines.append(lst("c06%sNames" % nm, walk(fn, "co_names")))
+            lines.append(lst("c06%sConsts" % nm, walk(fn, "co_consts")))
+        lines.append(lst("c06IsIsomorphicDefaults", defaults(_operations.is_isomorphic)))
+        lines.append(lst("c06CompareBagsDefaults", defaults(_operations.compare_bags)))
+        lines.append(lst("c06Roles", [_mrs.CONSTANT_ROLE, _mrs.INTRINSIC_ROLE, _mrs.RESTRICTION_ROLE,
+                                      mrsmod._QUANTIFIER_TYPE]))
+        lines.append(lst("c06CommonPropertyIndex",
+                         ["%s=%d" % kv for kv in sembase._COMMON_PROPERTY_INDEX.items()]))
+        return lines
 
     # ---- generators
     def pair_cases(self, rng, m, fam, big=False):
@@ -1095,6 +1146,13 @@ class C06(Check):
         if v2 != verdict:
             fail("invariant: renaming variables and reordering predications/constraints does not change the verdict",
                  [verdict, v2])
+        # documented defaults: properties are compared unless switched off
+        if props:
+            with time_limit(LIMIT):
+                dflt = _mrs.is_isomorphic(semgen.mrs_from_json(copy.deepcopy(j1)), semgen.mrs_from_json(copy.deepcopy(j2)))
+            if dflt != verdict:
+                fail("default: is_isomorphic(m1, m2) compares properties (properties=True is the default)",
+                     [verdict, dflt])
         # ignoring properties can only merge classes
         if props and verdict and run_iso(j1, j2, False) is not True:
             fail("isomorphic with properties compared implies isomorphic with properties ignored", None)
@@ -1128,6 +1186,11 @@ class C06(Check):
         # lists variant agrees with the counts
         t_objs = [semgen.mrs_from_json(copy.deepcopy(j)) for j in test]
         g_objs = [semgen.mrs_from_json(copy.deepcopy(j)) for j in gold]
+        if props:
+            dflt = list(_mrs.compare_bags([semgen.mrs_from_json(copy.deepcopy(j)) for j in test],
+                                          [semgen.mrs_from_json(copy.deepcopy(j)) for j in gold]))
+            if dflt != [u, s, g]:
+                fail("default: compare_bags(test, gold) compares properties and returns counts", [res, dflt])
         lu, ls, lg = _mrs.compare_bags(t_objs, g_objs, properties=props, count_only=False)
         if [len(lu), len(ls), len(lg)] != [u, s, g]:
             fail("bags: count_only=False returns lists of the same sizes", [[len(lu), len(ls), len(lg)], res])
